@@ -119,6 +119,23 @@ CHECKS = {
             'unconstrained answer must be exactly the latest version; GetSupportedLanguages must equal the stored languages.',
             'Single provider with context states enabled in GetMdState (library default); handle strings are schema-valid.',
             'DESIGN.md section 2 C20'),
+    'C04': ('hypothesis generated MDIB programs with a per-version snapshot oracle over every notification on the wire and '
+            'an independent lxml schema validation of every message; cooperative scheduler (random schedules and '
+            'exhaustive depth-first enumeration for small scenarios) for the delivery order under concurrent writers',
+            'reports part: programs over all transaction kinds on a 2-MDS and a 1-MDS MDIB, sync and async manager. Every '
+            'committed MdibVersion is snapshotted while the committing thread holds mdib_lock. Each episodic / waveform / '
+            'description-modification notification sent to a subscriber is parsed back: its version group must be the '
+            'committed one, the union of entities over the reports of a version must be exactly the entities whose '
+            'canonical form changed at that version, each with the content and counters of that version, under the '
+            'SourceMds it belongs to. Every SOAP message of the run (start-up, subscribe, notifications, responses) is '
+            'validated with an lxml XMLSchema over the bundled XSD files. Periodic store: every retained copy equals the '
+            'snapshot of the version it is labelled with after every later operation; one real iteration of the periodic '
+            'send loop must send exactly the stored states. order part: 2-3 writer threads under the cooperative scheduler '
+            '(yield points at mdib_lock, transaction lock, subscription table locks): per subscriber the MdibVersions of '
+            'the ordered report kinds are non-decreasing.',
+            'Interleavings at lock granularity only; the subscriber handles notifications in the delivering thread; the '
+            'periodic timer is replaced so that exactly one loop iteration runs.',
+            'DESIGN.md section 2 C04'),
     'C06': ('hypothesis generated provider MDIB programs x delivery schedules (drop / duplicate / reorder / late replay / '
             'reload) x in-flight commits around the GetMdib answer x SequenceId / InstanceId change, on a fault-injecting '
             'in-process loop-back transport, with monotonicity, no-change, membership and mirror oracles',
